@@ -1,4 +1,4 @@
-// Counterexample found by mirsym/z3 for property C17, template fd_nested_list_query_sum: |s, x, y| { q == [s, [x, y]], infdrange([x, y], &(0..=2)), infdrange(s, &(0..=4)), plusfd(x, y, s), ltefd(x, y) } with parameters []: reference answer 3 is missing from the engine's answers (expected answers ['[0, [0, 0]]', '[1, [0, 1]]', '[2, [0, 2]]', '[2, [1, 1]]', '[3, [1, 2]]', '[4, [2, 2]]'], engine answers ['[0, [0, 0]]', '[1, [0, 1]]', '[2, [0, 2]]', '[4, [2, 2]]', '[3, [1, 2]]'])
+// Counterexample found by mirsym/z3 for property C17, template fd_nested_list_query_sum: |s, x, y| { q == [s, [x, y]], infdrange([x, y], &(0..=2)), infdrange(s, &(0..=4)), plusfd(x, y, s), ltefd(x, y) } with parameters []: reference answer 3 is missing from the engine's answers (expected answers ['[0, [0, 0]]', '[1, [0, 1]]', '[2, [0, 2]]', '[2, [1, 1]]', '[3, [1, 2]]', '[4, [2, 2]]'], engine answers ['[0, [0, 0]]', '[1, [0, 1]]', '[2, [0, 2]]', '[3, [1, 2]]', '[4, [2, 2]]'])
 // Replay: /verif/check C17 --replay /verif/replay/cases/C17-fd_nested_list_query_sum_answers.rs
 #![allow(unused_imports, unused_variables, unused_mut)]
 use proto_vulcan::prelude::*;
